@@ -51,13 +51,8 @@ func c02Run(c c02gen.Case) (o c02gen.Obs) {
 	}
 
 	for _, l := range c.Lookups {
-		ok := map[int]bool{}
-		for _, id := range l.OK {
-			ok[id] = true
-		}
-
-		entry, err := tree.Find(l.Path, LookupMatcherFunc[c02Val](func(v c02Val, _, _ []string) bool {
-			return ok[v.ID]
+		entry, err := tree.Find(l.Path, LookupMatcherFunc[c02Val](func(v c02Val, keys, vals []string) bool {
+			return c02gen.Accept(l.OK, l.Modes, l.Needle, v.ID, keys, vals)
 		}))
 
 		switch {
